@@ -90,7 +90,7 @@ def build_foreign(trees, known):
                     continue
                 seen[m.name] = seen.get(m.name, 0) + 1
                 q = "%s.%s.%s" % (modname, st.name, m.name)
-                if q in known or m.name in _CONTAINER_METHODS or (m.name.startswith("__") and m.name.endswith("__")) or m.decorator_list:
+                if q in known or m.name in _CONTAINER_METHODS or m.name.startswith("_") or m.decorator_list:       # (private methods are called through self only)
                     continue
                 a = m.args
                 if a.vararg or a.kwarg or a.kwonlyargs or a.posonlyargs or not a.args or a.defaults:
@@ -680,7 +680,7 @@ class FuncCanon(object):
         changed = False
         for blk in _all_blocks(self.fn):
             top = blk is self.fn.body
-            if self.star(blk) or self.callsel(blk) or self.tuplepush(blk) or self.unroll(blk) or self.lockwith(blk) or self.flagloop(blk) or self.thread(blk) or self.deadstore(blk) or self.kw(blk) or self.split(blk) or self.retsplit(blk) or self.forelse(blk) or self.dowhile(blk) or self.withsink(blk) or self.testsplit(blk) or self.rot(blk) or self.brk(blk, top) or self.wtop(blk) or self.ifs(blk) or self.sink(blk) or self.unpack(blk) or self.fwd(blk):
+            if self.star(blk) or self.callsel(blk) or self.tuplepush(blk) or self.listcomp(blk) or self.unroll(blk) or self.lockwith(blk) or self.flagloop(blk) or self.thread(blk) or self.deadstore(blk) or self.kw(blk) or self.split(blk) or self.retsplit(blk) or self.forelse(blk) or self.dowhile(blk) or self.withsink(blk) or self.testsplit(blk) or self.rot(blk) or self.brk(blk, top) or self.wtop(blk) or self.ifs(blk) or self.sink(blk) or self.unpack(blk) or self.fwd(blk):
                 return True
         return changed
 
@@ -780,6 +780,88 @@ class FuncCanon(object):
             if isinstance(n, ast.Lambda):
                 continue
             stack.extend(ast.iter_child_nodes(n))
+
+    # -- LISTCOMP --------------------------------------------------------------------------------------------------
+    def listcomp(self, blk):
+        """`a = [] ; b = [] ; for v in IT: a.append(E1) ; b.append(E2)`   ->   `_it = IT ; a = [E1 for v in _it] ; b = [E2 for v in _it]`
+        when the loop body is nothing but one append per list, E1/E2 are effect-free expressions that do not read the lists, IT is
+        a variable or a call that returns a fresh list (os.listdir, sorted, list), and v is not read after the loop."""
+        def pure(e):
+            for n in ast.walk(e):
+                if isinstance(n, (ast.Await, ast.Yield, ast.YieldFrom, ast.NamedExpr, ast.Lambda)):
+                    return False
+                if isinstance(n, ast.Call):
+                    f = n.func
+                    if isinstance(f, ast.Name) and f.id in PURE_BUILTINS and not self.stores.get(f.id):
+                        continue
+                    if isinstance(f, ast.Attribute) and isinstance(f.value, ast.Attribute) and isinstance(f.value.value, ast.Name) and f.value.value.id == "os" and f.value.attr == "path" \
+                            and f.attr in ("join", "basename", "dirname", "normpath", "split", "splitext"):
+                        continue
+                    if isinstance(f, ast.Attribute) and isinstance(f.value, ast.Constant) and isinstance(f.value.value, (str, bytes)) and f.attr in ("format", "join"):
+                        continue
+                    return False
+            return True
+        for i, lp in enumerate(blk):
+            if not (isinstance(lp, ast.For) and not lp.orelse and isinstance(lp.target, ast.Name) and lp.body):
+                continue
+            v = lp.target.id
+            apps = []
+            ok = True
+            for st in lp.body:
+                c = st.value if isinstance(st, ast.Expr) else None
+                if not (isinstance(c, ast.Call) and isinstance(c.func, ast.Attribute) and c.func.attr == "append" and isinstance(c.func.value, ast.Name) and len(c.args) == 1 and not c.keywords
+                        and not isinstance(c.args[0], ast.Starred)):
+                    ok = False
+                    break
+                apps.append((c.func.value.id, c.args[0]))
+            names = [a for a, _e in apps]
+            if not ok or len(set(names)) != len(names) or v in names:
+                continue
+            # the lists: bound to [] in the statements right before the loop (in any order), nothing else in between
+            k = i
+            inits = {}
+            while k > 0 and isinstance(blk[k - 1], ast.Assign) and len(blk[k - 1].targets) == 1 and isinstance(blk[k - 1].targets[0], ast.Name) \
+                    and isinstance(blk[k - 1].value, ast.List) and not blk[k - 1].value.elts and blk[k - 1].targets[0].id in names and blk[k - 1].targets[0].id not in inits:
+                inits[blk[k - 1].targets[0].id] = k - 1
+                k -= 1
+            if set(inits) != set(names):
+                continue
+            if any(nm in self.captured or nm in self.params for nm in names + [v]):
+                continue
+            if not all(pure(e) and not any(isinstance(n, ast.Name) and n.id in names for n in ast.walk(e)) for _a, e in apps):
+                continue
+            it = lp.iter
+            fresh_list = isinstance(it, ast.Call) and not it.keywords and (
+                (isinstance(it.func, ast.Name) and it.func.id in ("sorted", "list") and not self.stores.get(it.func.id)) or
+                (isinstance(it.func, ast.Attribute) and isinstance(it.func.value, ast.Name) and it.func.value.id == "os" and it.func.attr == "listdir"))
+            if not (isinstance(it, ast.Name) or fresh_list):
+                continue
+            if isinstance(it, ast.Name) and (it.id in names or it.id == v):
+                continue
+            # v must not be read after the loop (a comprehension keeps its variable to itself)
+            later_reads = any(isinstance(n, ast.Name) and n.id == v and isinstance(n.ctx, ast.Load) for s_ in blk[i + 1:] for n in ast.walk(s_))
+            other_stores = [x for x in self.stores.get(v, []) if x is not lp.target]
+            if later_reads or (other_stores and any(isinstance(n, ast.Name) and n.id == v and isinstance(n.ctx, ast.Load) and not any(n is m for s_ in lp.body for m in ast.walk(s_)) for n in self.loads.get(v, []))):
+                continue
+            new = []
+            if isinstance(it, ast.Name):
+                itn = it.id
+            else:
+                itn = "_it%d" % (1 + sum(1 for n in self.stores if n.startswith("_it")))
+                while itn in self.stores or itn in self.loads:
+                    itn += "_"
+                new.append(ast.Assign(targets=[ast.Name(id=itn, ctx=ast.Store())], value=it))
+                self.fresh.add(itn)
+            for nm, e in apps:
+                comp = ast.ListComp(elt=e, generators=[ast.comprehension(target=ast.Name(id=v, ctx=ast.Store()), iter=ast.Name(id=itn, ctx=ast.Load()), ifs=[], is_async=0)])
+                new.append(ast.Assign(targets=[ast.Name(id=nm, ctx=ast.Store())], value=comp))
+            for x in new:
+                ast.copy_location(x, lp)
+                ast.fix_missing_locations(x)
+            blk[k:i + 1] = new
+            self.bump("LISTCOMP")
+            return True
+        return False
 
     # -- UNROLL ----------------------------------------------------------------------------------------------------
     def unroll(self, blk):
